@@ -10,6 +10,8 @@ SPEC = dict(
          "last-byte-high-bit-only, last-byte-low-bits, single-bit, 127/128-boundary and corner key pairs, both argument orders; "
          "non-trivial = defined non-empty result; distinct by input",
     assumptions=["keys of generated validator sets are injective images of numeric ids; the model compares ids",
+                 "IsNeighbor is not queried with the node's own key (the property relates a validator to other validators; "
+                 "counted as isn-own-key-skipped in the input distribution)",
                  "sqcheck cases: the Go side evaluates width(k^2-1)=k-1, width(k^2)=k, width(k^2+1)=k for every k of the window; the model side "
                  "is theorem C29_width_around_squares plus evaluation of the extracted width on 66 points of the window"],
 )
